@@ -8,9 +8,9 @@ CONSTANTS
   DepSets <- C_DepSets
   HandlerSeqs <- C_HSeqs
   UpRegs <- C_UpRegs
-  QuitOn = TRUE
-  QuitDeferred = TRUE
-  DefCap = 1
+  QuitOn = FALSE
+  QuitDeferred = FALSE
+  DefCap = 0
   D = 0
 INIT Init
 NEXT Next
